@@ -182,6 +182,9 @@ func (x *Exec) heapTargets(addr ssa.Value) []string {
 	}
 	pt, ok := root.Type().Underlying().(*types.Pointer)
 	if !ok {
+		if isFreshSlice(root, 0) {
+			return nil
+		}
 		// index into a slice value: element write on a shared backing array
 		return []string{"$slice"}
 	}
@@ -456,4 +459,37 @@ func (x *Exec) obligeSrc(st *State, kind, name string, goal *Term, pos token.Pos
 
 func (x *Exec) warn(f string, a ...interface{}) {
 	x.warnings = append(x.warnings, fmt.Sprintf(f, a...))
+}
+
+// isFreshSlice: the value is (a sub-slice of) a slice made in this function, possibly read back from a local cell
+// that only ever holds such slices.
+func isFreshSlice(v ssa.Value, depth int) bool {
+	if depth > 4 {
+		return false
+	}
+	switch v := v.(type) {
+	case *ssa.MakeSlice:
+		return true
+	case *ssa.Slice:
+		return isFreshSlice(v.X, depth+1)
+	case *ssa.UnOp:
+		if v.Op != token.MUL {
+			return false
+		}
+		al, ok := v.X.(*ssa.Alloc)
+		if !ok || !allocIsCell(al) {
+			return false
+		}
+		n := 0
+		for _, r := range *al.Referrers() {
+			if st, ok := r.(*ssa.Store); ok && st.Addr == al {
+				n++
+				if !isFreshSlice(st.Val, depth+1) {
+					return false
+				}
+			}
+		}
+		return n > 0
+	}
+	return false
 }
